@@ -11,8 +11,8 @@
 (* a counterexample (a witness that the situation is reachable).             *)
 (***************************************************************************)
 EXTENDS Lifecycle
-CONSTANTS D, S, W, MaxD, Cd, Kinds, Pairs, BurySizes, Rev, MaxH
-K == MkK(D, S, W, MaxD, Cd, Kinds, Pairs, BurySizes, Rev, TRUE, "compact", TRUE)
+CONSTANTS D, S, W, MaxD, Cd, Kinds, Pairs, BurySizes, Rev, MaxH, Crash
+K == WithCrash(MkK(D, S, W, MaxD, Cd, Kinds, Pairs, BurySizes, Rev, TRUE, "compact", TRUE), Crash)
 
 VARIABLES s, g, last
 Init == s = InitState(K) /\ g = InitGhost /\ last = [op |-> "init"]
@@ -28,6 +28,7 @@ Bound == s.h <= MaxH
 
 C15a == Inv_C15a(g)
 C15b == Inv_C15b(g)
+C15c == Inv_C15c(g)
 TypeOK ==
   /\ s.h >= 0 /\ s.hw >= 0 /\ s.hw <= K.W /\ s.hw <= s.h
   /\ g.h = s.h /\ g.ev = s.ev
